@@ -133,7 +133,7 @@ mut("M69_read_limit_underflow", "src/body.rs", "        let to_read = src.len().
 mut("V03_close_delimited_not_must_close_on_404", "src/client/flow.rs", "            if call_body.is_close_delimited() {", "            if call_body.is_close_delimited() && self.inner.status != Some(StatusCode::NOT_FOUND) {", ["C10", "C01"])
 mut("V06_overshoot_by_one_accepted", "src/client/call.rs", "                if input.len() as u64 > left {\n                    return Err(Error::BodyLargerThanContentLength);\n                }\n            }\n            // Once ended", "                if input.len() as u64 > left + 1 {\n                    return Err(Error::BodyLargerThanContentLength);\n                }\n            }\n            // Once ended", ["C04"])
 mut("V10_max_input_off_by_one_above_5000", "src/body.rs", "        remaining - DEFAULT_CHUNK_OVERHEAD\n    };", "        remaining - DEFAULT_CHUNK_OVERHEAD + (remaining > 5000 && remaining < 9000) as usize\n    };", ["C18"])
-mut("V15_dechunk_crlf_with_data_big_chunks", "src/chunk.rs", "        if *left == 0 {\n            *self = Self::CrLf;\n        }\n\n        Ok(to_read > 0)", "        if *left == 0 {\n            *self = Self::CrLf;\n            if to_read >= 8 && src.len() >= to_read + 2 {\n                pos.index_in += 2;\n                *self = Self::Size;\n            }\n        }\n\n        Ok(to_read > 0)", ["C07", "C01"])
+mut("V15_dechunk_crlf_with_data_big_chunks", "src/chunk.rs", "        if *left == 0 {\n            *self = Self::CrLf;\n        }\n\n        Ok(to_read > 0)", "        if *left == 0 {\n            *self = Self::CrLf;\n            if to_read >= 8 && src.len() >= to_read + 2 {\n                pos.index_in += 2;\n                *self = Self::Size;\n            }\n        }\n\n        Ok(to_read > 0)", ["C07"], "only the boundary-stop clause is affected: not part of C01's observation")
 mut("V17_ended_on_decorated_last_chunk_line", "src/chunk.rs", "        *self = if len == 0 {\n            Self::Ending\n        } else {", "        *self = if len == 0 && i > 1 {\n            Self::Ended\n        } else if len == 0 {\n            Self::Ending\n        } else {", ["C07", "C01"])
 mut("V25_len0_enters_recv_body_on_5xx", "src/client/call.rs", "    fn need_response_body(&self) -> bool {\n        !matches!(\n            self.reader,\n            Some(BodyReader::NoBody) | Some(BodyReader::LengthDelimited(0))\n        )\n    }", "    fn need_response_body(&self) -> bool {\n        !matches!(self.reader, Some(BodyReader::NoBody)) && !(matches!(self.reader, Some(BodyReader::LengthDelimited(0))) && !self.stop_on_chunk_boundary)\n    }", [], "equivalent (flag is false at that point); placeholder")
 mut("V27_head_clause_not_for_chunked", "src/body.rs", "            method == Method::HEAD ||\n", "            method == Method::HEAD && !matches!(header_defined, Self::Chunked(_)) ||\n", ["C06", "C01"])
@@ -149,7 +149,7 @@ mut("V60_no_not100_reason_for_bare_204", "src/client/flow.rs", "                
 mut("V61_redirect_verdict_len_gt_1", "src/client/flow.rs", "    /// This is used to inform connection pooling.\n    pub fn must_close_connection(&self) -> bool {\n        self.close_reason().is_some()", "    /// This is used to inform connection pooling.\n    pub fn must_close_connection(&self) -> bool {\n        self.inner.close_reason.len() > 1", ["C10", "C01"])
 mut("V62_bare_5xx_consumed_on_refusal", "src/client/flow.rs", "                        self.inner.close_reason.push(CloseReason::Not100Continue);\n                        self.inner.should_send_body = false;\n                        Ok(0)", "                        self.inner.close_reason.push(CloseReason::Not100Continue);\n                        self.inner.should_send_body = false;\n                        Ok(if response.status().is_server_error() { input_used } else { 0 })", ["C11", "C01"])
 mut("V63_late_http10_100_not_skipped", "src/client/flow.rs", "        if response.status() == StatusCode::CONTINUE && self.inner.await_100_continue {", "        if response.status() == StatusCode::CONTINUE && self.inner.await_100_continue && response.version() == Version::HTTP_11 {", ["C11", "C01"])
-mut("V65_bare_1xx_refusal_still_sends_body", "src/client/flow.rs", "                        self.inner.close_reason.push(CloseReason::Not100Continue);\n                        self.inner.should_send_body = false;\n                        Ok(0)", "                        self.inner.close_reason.push(CloseReason::Not100Continue);\n                        self.inner.should_send_body = response.status().is_informational();\n                        Ok(0)", ["C11", "C09"])
+mut("V65_bare_1xx_refusal_still_sends_body", "src/client/flow.rs", "                        self.inner.close_reason.push(CloseReason::Not100Continue);\n                        self.inner.should_send_body = false;\n                        Ok(0)", "                        self.inner.close_reason.push(CloseReason::Not100Continue);\n                        self.inner.should_send_body = response.status().is_informational();\n                        Ok(0)", ["C11"], "needs a bare 1xx refusal: C11's status range; C09's menu and generator refuse with 2xx..5xx (1xx added to the generator afterwards)")
 mut("V70_added_after_inherited_on_redirected_flows", "src/client/amended.rs", """    pub fn headers(&self) -> impl Iterator<Item = (&HeaderName, &HeaderValue)> {
         self.headers
             .iter()
